@@ -9,13 +9,73 @@ TRUST = ("Sampling, not proof. Trusted base: the harness itself (SimDisk == Curs
 
 CHECKS = {
     "C01": dict(level="exploration", ref="DESIGN.md §4 C01",
-        text="Seeded search over writer programs x sink short-write schedules x read-back short-read schedules x caller buffer sizes; each program is executed twice on simulated disks (finish / drop), images must be byte-identical and the crate's seekable reader must agree field-by-field and byte-by-byte with a reference model. Exploration is the right level: the space (programs x schedules) is unbounded and the property is a round trip through real codecs.",
+        text="Seeded search over writer programs x sink short-write schedules x read-back short-read schedules x caller buffer sizes; each program is executed twice on simulated disks (finish / drop), the images must be byte-identical and the crate's seekable reader must agree field-by-field and byte-by-byte with a reference model. Exploration is the right level: the space (programs x schedules) is unbounded and the property is a round trip through real codecs.",
         note=TRUST + "Names/comments embedding record signatures are skipped by a computed ambiguity predicate (R2).",
         tech="deterministic simulation: seeded program + I/O-schedule search against a reference model (finish vs drop crash point)"),
     "C02": dict(level="exploration", ref="DESIGN.md §4 C02",
         text="Same simulated runs over the full writer alphabet (extra data, aligned, ZipCrypto, raw copy, append rounds, over-long fields); every archive the writer reports as successful is judged by an independent strict parser (Appendix D rules), and unrepresentable inputs must be rejected. Exploration over programs and schedules.",
-        note=TRUST + "Literal 0xFFFF/0xFFFFFFFF without ZIP64 is accepted as the writer's thresholds produce it.",
+        note=TRUST + "Literal 0xFFFF/0xFFFFFFFF without ZIP64 is accepted where no ZIP64 record is present.",
         tech="deterministic simulation: seeded program + I/O-schedule search judged by an independent APPNOTE parser"),
+    "C03": dict(level="exploration", ref="DESIGN.md §4 C03",
+        text="Seeded search over layout descriptors of an independent reference builder (every degree of freedom C03 lists is a seeded choice) read through the crate's seekable reader on a simulated disk with short-read schedules; the builder's own record is the oracle for every accessor, offset and byte.",
+        note=TRUST + "Layouts that are ambiguous for any backward-searching reader (signature bytes at the probe positions) are skipped and counted.",
+        tech="deterministic simulation: seeded foreign-archive layouts + short-read schedules against the builder's record"),
+    "C04": dict(level="fault_enumeration", ref="DESIGN.md §4 C04",
+        text="Storage damage confined to an entry's data extent or declared CRC, then the entry is read to EOF under short-read schedules with drawn caller buffers through both readers: for small seed images EVERY single-bit flip of every data byte and of the 32 CRC bits is enumerated; larger images get sampled multi-site damage, truncated payloads, swapped payloads and lost CRC back-patches. Oracle: a read that completes returned bytes whose CRC equals the declared one (AE-2 exempt).",
+        note=TRUST + "The CRC of the returned bytes is recomputed by the harness's own CRC-32.",
+        tech="deterministic simulation: enumerated bit-rot faults on simulated storage, read under seeded short-read schedules"),
+    "C05": dict(level="exploration", ref="DESIGN.md §4 C05",
+        text="Crash-truncated, torn, bit-rotted, spliced and structure-aware lying images (every prefix, every representative byte value at every structural offset, every header field x boundary value of small seeds are enumerated; random multi-site damage and arbitrary bytes are sampled) are driven through the whole reading surface (seekable reader, raw/decrypt/by-name access, all accessors, streaming reader, visitor, open-for-append) in monitored worker processes: panics (overflow checks on), aborts, step-budget overruns and heap blow-ups while opening are violations.",
+        note=TRUST + "Heap bound 1024 x len + 8 MiB by a counting allocator; step budget 4M + 16 x len I/O calls; wall-clock watchdog for loops without I/O.",
+        tech="deterministic simulation: seeded + enumerated storage faults (crash points, bit rot, lying fields) with panic/abort/step/heap monitors"),
+    "C07": dict(level="exploration", ref="DESIGN.md §4 C07",
+        text="Archives with hostile and benign names are extracted by both extractors from a simulated source (short reads, optional reader fault) into a fresh 16-level-deep sandbox on the real file system; the sandbox outside the target is snapshotted before/after (confinement), unsafe names must yield Err, and for safe consistent names the tree, bytes and permission bits must equal the reference tree.",
+        note=TRUST + "The sink is the real kernel FS on purpose (confinement is about what the kernel does with the path); even a real escape cannot leave the sandbox.",
+        tech="deterministic simulation of the archive source + sandboxed real-FS snapshot oracle over a seeded hostile-name grammar"),
+    "C08": dict(level="exploration", ref="DESIGN.md §4 C08",
+        text="A sparse simulated disk makes the 16/32-bit limits cheap to hit exactly: sinks pre-positioned around 2^32 (header/directory offsets at 2^32-2..2^32+1), Stored payloads of 2^32-2..2^32+1 bytes with and without large_file, 65534..70000 entries, combinations with comments and append rounds, plus foreign archives with ZIP64 fields forced on small files in all subsets; model equality through the crate's reader and the independent validator's ZIP64 rules.",
+        note=TRUST + "Huge payloads are zeros with marker bytes (sparse); compressing methods across 4 GiB and 5 GiB payloads only in the thorough tier.",
+        tech="deterministic simulation on a sparse simulated disk, boundary-directed seeded search against model + independent parser"),
+    "C09": dict(level="exploration", ref="DESIGN.md §4 C09",
+        text="One program / archive, many fragmentation schedules: uniform chunk 1..K, BufReader-like refills, PRNG schedules, and ONE short transfer at EVERY I/O call index (enumerated for small cases) on sink, seekable source and non-seekable stream, plus caller read buffers (zero-length included) and caller write splits; every re-execution must reproduce the unfragmented outcome (image byte-identical / decoded results equal).",
+        note=TRUST + "Plain, ZipCrypto (crate-written and independently encrypted) and AE-1/AE-2 entries.",
+        tech="deterministic simulation: schedule exploration (the I/O fragmentation schedule is the quantified variable)"),
+    "C10": dict(level="exploration", ref="DESIGN.md §4 C10",
+        text="The same bytes are read by the seekable reader (reference) and front-to-back from a non-seekable simulated stream with short reads; per entry a drawn consumption pattern (0, 1, k, all-1, all, all+reads after EOF) forces the drop-time drain to resynchronise from every decoder state; the visitor API must deliver files in order, then the central metadata once per entry in order; encrypted / data-descriptor entries must be refused.",
+        note=TRUST + "The seekable reader's own fidelity is established by C01/C03.",
+        tech="deterministic simulation: seeded histories of partial consumption on a simulated non-seekable stream vs the seekable reader"),
+    "C11": dict(level="fault_enumeration", ref="DESIGN.md §4 C11",
+        text="For each seeded program (writer sequences incl. append/raw copy/extra data/encryption; open+read-all incl. ZIP64/ZipCrypto/AES/junk prefix; streaming reader) a failure-free run, then one run per I/O call index k and fault kind (hard error, sticky error, EINTR, zero-length write, early EOF) with the fault at k; remaining operations, finish and Drop still run. Oracle: no panic/abort; some call reported an error OR the outcome equals the failure-free run semantically.",
+        note=TRUST + "k is enumerated completely when the failure-free run has <= 400 I/O calls, otherwise first/last 100 plus a seeded sample; pairs of faults in the thorough tier.",
+        tech="deterministic simulation: fault enumeration over every I/O call index of seeded programs"),
+    "C12": dict(level="exploration", ref="DESIGN.md §4 C12, Appendix C",
+        text="Random call sequences (depth up to 200) over the full writer alphabet, legal or not, with small parameter domains; a writer state-machine model predicts MustOk / MustErr / Either per call; whenever finish() succeeds the archive must validate independently and contain exactly the entries and bytes the model accumulated. The exhaustive bounded-depth sweep the property also mentions is model checking and is not claimed.",
+        note=TRUST + "After a failed state-changing call the model constrains only what the property states (R6).",
+        tech="deterministic simulation: seeded call-sequence search against an executable writer state-machine model"),
+    "C13": dict(level="exploration", ref="DESIGN.md §4 C13",
+        text="The durable image on the simulated disk survives 'process restarts': histories of 0..R rounds of new_append + entries + finish/drop on bases from the crate's writer and from the independent builder (data descriptors, CP437 names, DOS made-by, junk prefix, forced ZIP64 records, per-file comments); after the history every previous unencrypted entry must be unchanged and the new ones present.",
+        note=TRUST + "One known finding (D12, archive shrinks on append) is matched semantically and reported as KNOWN-FINDING.",
+        tech="deterministic simulation: seeded restart histories on durable simulated storage against an accumulated reference model"),
+    "C14": dict(level="exploration", ref="DESIGN.md §4 C14",
+        text="Two simulated disks (source archive, destination writer); programs interleave raw copies (by index / name / raw, optional rename, first/last/only positions) with ordinary entries under short-read/short-write schedules; the destination extent must be byte-identical to the source's, metadata equal, neighbours intact, and the archive must validate independently.",
+        note=TRUST + "Sources from the crate's writer and the independent builder incl. methods the crate cannot decode and data-descriptor entries.",
+        tech="deterministic simulation: seeded two-disk programs with I/O schedules, extent equality via the independent parser"),
+    "C15": dict(level="exploration", ref="DESIGN.md §4 C15",
+        text="Entries encrypted by the crate and by an independent PKWARE cipher (CRC and Info-ZIP time conventions), with the check byte chosen to cover all 256 outcomes, read with the right password, none, and wrong passwords searched to collide / not collide with the check byte, under short-read schedules; crate-written entries are decrypted by the independent cipher and scanned for plaintext.",
+        note=TRUST + "A wrong password that passes the 1-byte check is legal (R5).",
+        tech="deterministic simulation: seeded password/content/check-byte search with an independent cipher as oracle, short-read schedules"),
+    "C16": dict(level="fault_enumeration", ref="DESIGN.md §4 C16",
+        text="AES entries from an independent encryptor ((AE-1|AE-2) x strength x inner method x boundary content lengths): right / no / wrong password on the intact image, and for small entries EVERY single-bit flip of salt, verifier, ciphertext and MAC (sampled for large ones), plus wrong declared CRC under AE-1 vs AE-2, all read under short-read schedules with drawn caller buffers: tampering of a non-empty entry must surface as an error no later than EOF.",
+        note=TRUST + "The independent AES composition is validated at start-up against the third-party fixture in /repo/tests/data.",
+        tech="deterministic simulation: enumerated bit-flip faults on simulated storage + seeded short-read schedules"),
+    "C17": dict(level="exploration", ref="DESIGN.md §4 C17",
+        text="Programs with aligned and extra-data entries after arbitrary prefixes (and sinks positioned anywhere, incl. beyond 2^32 in C08 runs): the data offset in the image must be a multiple of the alignment, equal the reader's data_start and the values the calls returned; local / central extra data must land verbatim where requested; malformed, reserved and oversized extra data must be refused.",
+        note=TRUST + "Alignments are drawn from boundary values, powers of two and uniformly from 0..65535.",
+        tech="deterministic simulation: seeded programs with alignment arithmetic checked on the image by the independent parser"),
+    "C20": dict(level="exploration", ref="DESIGN.md §4 C20",
+        text="Clones of one archive driven by per-handle scripts: (A) a seeded scheduler releases one script step at a time across handle threads (baton passing), (B) shuttle's seeded random/PCT schedulers interleave handle threads at every source I/O call and at the shared relaxed atomic; each handle's observation log must equal its solo run. (C) a compile-time probe asserts Send + Sync.",
+        note=TRUST + "Part B builds the crate through a shadow manifest with the guarded hook (private atomic alias -> shuttle's); parts A and C use the crate as shipped.",
+        tech="deterministic simulation: seeded schedulers (own baton scheduler + shuttle random/PCT) over cloned-handle scripts"),
 }
 
 NOT_APPLICABLE = {
